@@ -71,12 +71,12 @@ CHECKS['C07'] = dict(
 CHECKS['C08'] = dict(
     text="Same machine; every action owns at most one object (FrameOne) and never a cell (CellsImmutable), model-checked by TLC. Random interleavings "
          "of 30-60 calls over a pool of derived objects are recorded with the full projection (bits, refs, hash, sha256 of to_boc) of every live "
-         "object after every call; TLC checks the frame condition, immutability, argument preservation and history-independence of Cell.order.",
+         "object after every call - including cells read by the dictionary, message and VM-stack parsers (parse_as) and dictionaries returned by Cell.order that the caller reuses or empties; TLC checks the frame condition, immutability, argument preservation and history-independence.",
     note=BAGNOTE, tech="TLA+ frame conditions as action properties (TLC) + TLC-simulated behaviours of the machine replayed into the library + trace validation with full-state logging after every call", ref="8/C08")
 CHECKS['C09'] = dict(
     text="TonHashmap defines the Patricia tree of a map and an independent parser for all label kinds; TLC checks Parse(Build(m)) = m for every "
          "key set of width 3 (4 thorough) under 7 label policies, plain and augmented. Every such key set, wider sparse sets and random sets "
-         "up to width 1023 are serialised by the library in several insertion orders and parsed through six entry points; TLC decodes the "
+         "up to width 1023 (incl. fork labels that fill a cell to the last bit) are serialised by the library in several insertion orders and parsed through six entry points; HashMap objects are edited, aliased over one dictionary and serialised again along behaviours TLC simulates from the object machine TonHmObj; TLC decodes the "
          "emitted cells itself and compares pairs, order, order-independence, emptiness and key-range rejection (through set, set_int_key "
          "and a key_serializer), for five key forms and three value helpers; one map object serialised, edited (set_int_key, its entry "
          "dictionary, the dictionary it was built over) and serialised again.",
@@ -105,13 +105,13 @@ CHECKS['C12'] = dict(
          "validator sets <= 3 x weights 1..3 x signature sequences <= 3 (4 thorough); the variants without de-duplication or with >= are refuted "
          "(negative controls run on every check). The same sets/sequences, realised with real Ed25519 keys, are fed to check_block_signatures and "
          "TLC decides accept/reject per record (signature fields of 63/65/64+n bytes count as invalid; descriptors also taken from the library's "
-         "parser with weights up to 2^64-1, compared in limb arithmetic); node-id and to-sign layouts are recomputed by TLC (SHA-256).",
+         "parser with weights up to 2^64-1, compared in limb arithmetic; a member's signature listed under its ADNL address is an unknown signer; the signature list is passed as list, tuple, iterator or generator); node-id and to-sign layouts are recomputed by TLC (SHA-256).",
     note="Ed25519 itself is not specified: items are labelled valid/invalid/other/long/short/padded/foreign by construction with PyNaCl",
     tech="TLA+ quorum algorithm refinement model-checked by TLC (with negative controls) + TLC validation of recorded accept/reject outcomes", ref="8/C12")
 CHECKS['C13'] = dict(
     text="TonAddr defines the raw and friendly text forms (tag, int8 workchain, CRC-16/XMODEM, both base64 alphabets). TLC proves ParseRender for all "
          "256 workchains x 8 variants x hash patterns and, via CRC linearity, that none of the 48 x 63 single-symbol error patterns has a zero "
-         "syndrome (so every substitution of every address is detectable). The library renders/parses all workchains x variants and thousands of "
+         "syndrome (so every substitution of every address is detectable). The library renders/parses all workchains x variants - also from objects that were themselves parsed from each text form - and thousands of "
          "substituted texts; TLC compares rendered text byte for byte and decides acceptance of each text with its own parser.",
     note="TonAddr transcription; a substitution means a different 6-bit symbol in the variant's alphabet",
     tech="TLA+ address/CRC spec: TLC lemma over all substitution patterns + TLC validation of recorded render/parse results", ref="8/C13")
@@ -120,14 +120,14 @@ CHECKS['C19'] = dict(
          "that it terminates (liveness under weak fairness), takes exactly n + e steps and emits a topological order. The library's work is "
          "measured in interpreter line events inside pytoniq_core for adversarial DAG families (double/quad chains to depth 60, ladders, "
          "trees, random shared DAGs, depth-1023 chain) and adversarial byte strings (BoC count fields, TL vector counts up to 2^32-1, TL "
-         "bytes lengths, dictionary labels); TLC checks work <= 50*(n+e+len)^2+2000 per record. A tracer aborts at the budget.",
+         "bytes lengths, dictionary labels incl. labels longer than the remaining key); TLC checks work <= 50*(n+e+len)^2+2000 per record and, for parsers of byte strings, peak allocation <= 1 MiB + 8 KiB per input byte (memory sized by a count or length field is work too). A tracer aborts at the budget; the address space is capped around every measured call.",
     note="work = Python line events (not wall time); a 60 s per-call watchdog covers loops inside C code; bound constants are a judgement (quadratic allowance)",
     tech="TLA+ memoised-DFS machine model-checked by TLC (safety + termination) + TLC validation of recorded work counts against the polynomial bound", ref="8/C19")
 CHECKS['C20'] = dict(
     text="Channel key selection, key ids, packet header and AES key/iv layout are TLA+ definitions with SHA-256 evaluated by TLC; the two-peer channel "
          "machine with symbolic DH/AES is model-checked (A.enc = B.dec, delivery, expected key id) for every id ordering incl. equal ids. Real "
          "channels for seeded key pairs (both orderings, forced equal ids), packets both ways, the signing helper with altered message/key/"
-         "signature, sequences of packets on one channel pair all held until the end (a packet is a value), mnemonics generated with defaults / explicit count / password, and key-derivation histories (a function of mnemonic and salt, ground truth from hashlib) are "
+         "signature, datagrams held in bytes / bytearray / memoryview buffers and delivered twice, an entropy source that stays unlucky for thousands of candidates, sequences of packets on one channel pair all held until the end (a packet is a value), mnemonics generated with defaults / explicit count / password, and key-derivation histories (a function of mnemonic and salt, ground truth from hashlib) are "
          "recorded and validated by TLC.",
     note="X25519/Ed25519/AES/PBKDF2 are library primitives taken as ground truth (shared secret recomputed with nacl, reference ciphertext with Cryptodome)",
     tech="TLA+ two-peer channel machine with symbolic crypto model-checked by TLC + TLC validation of recorded keys/packets (SHA-256 in TLA+)", ref="8/C20")
